@@ -88,4 +88,19 @@ func (e *SpecEnv) uninterpArg(a SV, declared types.Type) (sorts, terms []string)
 	return []string{fc.tc.sortOfSV(a)}, []string{a.t}
 }
 
+// mapLenWitness: a Go map of length > 0 contains some key. Added as a ground fact wherever the code evaluates len(m):
+//   len(m) > 0 ==> has(m, mapwit(keys of m))
+// mapwit is an uninterpreted choice function on key sets. True of every Go map (the length is the number of keys); the model keeps the
+// length (ML) and the key set (MH) as separate components, so without this fact a non-empty map without keys would be a model.
+func (fc *FnCtx) mapLenWitness(st *State, mt *types.Map, m, l string) {
+	mh, _ := fc.mapComps(mt)
+	ks := fc.tc.sortOf(mt.Key())
+	name := "mapwit_" + mangle(types.TypeString(mt.Key(), nil))
+	fc.eng.declareUF(fc, name, []string{"(Array " + ks + " Bool)"}, ks)
+	row := app("select", fc.comp(st, mh, fc.comps[mh]), m)
+	wit := app(name, row)
+	// ... and that key is a well-typed value of the key type (e.g. a string of non-negative length)
+	fc.assume("true", implies(app(">", l, "0"), and(app("select", row, wit), fc.tc.wf(wit, mt.Key(), ""))))
+}
+
 var _ = fmt.Sprintf
